@@ -256,6 +256,7 @@ def c09_jobs(tier):
         Job('decode-memcheck', 'c09', 'decode', q(tier, 10000, 500000), flavour='plain', wrapper='memcheck', timeout=q(tier, 900, 7200), single_timeout=600),
         Job('corrupt-memcheck', 'c09', 'corrupt', q(tier, 4000, 200000), flavour='plain', wrapper='memcheck', timeout=q(tier, 900, 7200), single_timeout=600),
         Job('decode-float', 'c09', 'decode', q(tier, 60000, 2000000), defines=fl),
+        Job('decode-short-lengths', 'c09', 'decode', q(tier, 40000, 1500000), defines={'ARDUINOJSON_STRING_LENGTH_SIZE': 1}),
         Job('decode-no-long-long', 'c09', 'decode', q(tier, 60000, 2000000), defines={'ARDUINOJSON_USE_LONG_LONG': 0}),
         Job('prefix-small', 'c09', 'prefix', q(tier, 5000, 200000), defines={'ARDUINOJSON_STRING_LENGTH_SIZE': 1, 'ARDUINOJSON_SLOT_ID_SIZE': 1, 'ARDUINOJSON_DEBUG': 1}),
         Job('corrupt-wide', 'c09', 'corrupt', q(tier, 8000, 300000), defines={'ARDUINOJSON_STRING_LENGTH_SIZE': 4}),
